@@ -42,7 +42,7 @@ def _structures():
 
 STRUCTS = _structures()
 NS = len(STRUCTS)
-NCHOICE = (1 << NBITS) * 4        # presence bits x (rep of 1st repeatable group, rep of 2nd) in {1,2}^2
+NCHOICE = (1 << NBITS) * 9        # presence bits x (1st repeatable group, 2nd) in {once, twice, twice with the optional leading members of the 2nd repetition left out}^2
 
 
 def ref_of(v, m):
@@ -99,11 +99,24 @@ def expand(ref, st, top=True):
             if mx != 1 and body[0][0] == 'SEG' and st.nrep < 2:
                 card = [c[2] for c in cref[1] if c[0] == body[0][1] and c[3] == 'SEG']
                 if card and card[0][1] == 1:
-                    n = st.reps[st.nrep]
+                    mode = st.reps[st.nrep]
                     st.nrep += 1
+                    n = 1 if mode == 0 else 2
+                    second = _clone(body)
+                    if mode == 2:
+                        # the second repetition leaves out its optional leading members: it then starts with another member, and
+                        # when that one is a segment that may occur once the property still fixes where the repetition begins
+                        optional = {c[0] for c in cref[1] if c[2][0] < 1}
+                        k = 0
+                        while k < len(second) and second[k][1] in optional:
+                            k += 1
+                        reduced = second[k:]
+                        if k and reduced and reduced[0][0] == 'SEG' and \
+                                [c[2][1] for c in cref[1] if c[0] == reduced[0][1] and c[3] == 'SEG'] == [1]:
+                            second = reduced
             out.append(('GRP', name, body))
             for _ in range(n - 1):
-                out.append(('GRP', name, _clone(body)))
+                out.append(('GRP', name, second))
     return out
 
 
@@ -178,8 +191,8 @@ def check(si, choice, trace=None):
     reset_defaults()
     v, mname = STRUCTS[si]
     ref = ref_of(v, mname)
-    bits = choice >> 2
-    reps = (1 + (choice & 1), 1 + ((choice >> 1) & 1))
+    bits = choice // 9
+    reps = ((choice % 9) % 3, (choice % 9) // 3)
     nodes = expand(ref, _State(bits, reps))
     names = flatten(nodes)
     mtype = mname.split('_')
@@ -272,6 +285,6 @@ SPEC = {
     'stubs': [],
     'obligations': [
         {'name': 'groups', 'fn': '_ob_groups', 'parts': 32, 'cond_timeout': {'quick': 900, 'thorough': 3000}, 'path_timeout': 60,
-         'bound': '%d message structures x %d instances each (2^%d presence choices x 4 repetition choices)' % (NS, NCHOICE, NBITS)},
+         'bound': '%d message structures x %d instances each (2^%d presence choices x 9 repetition choices: once / twice / twice with a shortened second repetition, for two groups)' % (NS, NCHOICE, NBITS)},
     ],
 }
